@@ -32,6 +32,7 @@
 //!   grid/recursion        a section whose text contains `grid_search` is not answered by `Err`
 //!   grid/section-type     a section that is not an object is not answered by `Err`
 //!   grid/rejected         a well-formed grid section was rejected
+//!   grid/equal-queries-witness  a recorded witness of "two combinations, one query" no longer reproduces
 //!   grid/panic            the plugin panicked (any other input; on a degenerate section: grid/degenerate)
 //!   multiset/count, multiset/duplicate, multiset/range   MultiSet over index sets
 //!   pipeline/expansion    apply_input_plugins does not return exactly the plugin's expansion
@@ -575,6 +576,16 @@ fn proc_case(ctx: &mut Ctx, q: &Value, branch: &str, fp: Option<String>) {
             if a.len() >= 2 {
                 ctx.nontrivial(&fp.unwrap_or_else(|| enc(q)));
             }
+            // equal queries for different combinations: conforming (one query per index tuple, see the
+            // header of Props/C17.lean), counted so that the evidence shows how often the stream meets them
+            let distinct = a.iter().map(canon).collect::<HashSet<_>>().len();
+            if distinct < a.len() {
+                ctx.count("expansions_with_equal_queries");
+            }
+            if branch == "corpus_equal_queries" && distinct == a.len() {
+                // the witnesses of the `grid_outputs_distinct_counterexample*` theorems must reproduce
+                ctx.fail(idx, "grid/equal-queries-witness", format!("the recorded witness no longer yields two equal queries: {} -> {}", q, clip(&real_line(&real))));
+            }
         }
         Real::Ok(_) => ctx.count("outcome_unchanged"),
         Real::Err(k) => ctx.count(&format!("outcome_err_{}", k)),
@@ -1075,6 +1086,13 @@ fn corpus() -> Vec<(&'static str, Value)> {
         ("corpus_order", json!({"grid_search": {"x": [1, 2]}, "b": 2, "c": 3})),
         ("corpus_order", json!({"a": 1, "b": 2, "grid_search": {"x": [1, 2]}})),
         // overriding: an option key hits an existing field (keeps its position), another axis, the axis name
+        // witnesses of Props/C17 grid_outputs_distinct_counterexample{,_across_axes,_original_field}: two
+        // combinations, one and the same query (index-level "none twice" holds, value-level does not)
+        ("corpus_equal_queries", json!({"grid_search": {"x": [1, {"x": 1}]}})),
+        ("corpus_equal_queries", json!({"grid_search": {"a": [{"x": 1}, {"x": 2}], "b": [{"x": 3}]}})),
+        ("corpus_equal_queries", json!({"q": 2, "grid_search": {"a": [{"p": 1}, {"p": 1, "q": 2}]}})),
+        // equal for serde_json (key order ignored), different as ordered objects
+        ("corpus_equal_queries", json!({"grid_search": {"o": [{"p": null, "q": null}, {"q": null, "p": null}]}})),
         ("corpus_collision", json!({"abc": 1, "grid_search": {"a": [{"abc": 2}, {"abc": 3}]}, "k": 0})),
         ("corpus_collision", json!({"grid_search": {"a": [{"x": 1}, {"x": 2}], "b": [{"x": 3}]}})),
         ("corpus_collision", json!({"grid_search": {"a": [1, 2], "b": [{"a": 9}, {"c": 9}]}})),
